@@ -650,10 +650,21 @@ fn set_file_rule(smode: i64, h: usize, id: &str, empty: bool) -> Option<String> 
 }
 
 fn build_history(ops: &Sx, modes: &Sx, cfg: Config) -> Option<AnnotationStore> {
-    let mut store = AnnotationStore::new(cfg);
+    let mut store = AnnotationStore::new(cfg.clone());
     for op in ops.list() {
-        let _ = storegen::apply(&mut store, op);
+        if op.nth(0).int() == 9 {
+            // save now: the members that qualify become stand-off, the store is written
+            assign_files(&mut store, modes)?;
+            store.to_json_string(&cfg).ok()?;
+        } else {
+            let _ = storegen::apply(&mut store, op);
+        }
     }
+    assign_files(&mut store, modes)?;
+    Some(store)
+}
+
+fn assign_files(store: &mut AnnotationStore, modes: &Sx) -> Option<()> {
     let (rmode, smode) = (modes.nth(0).int(), modes.nth(1).int());
     for h in 0..store.resources_len() {
         let hd = TextResourceHandle::new(h);
@@ -667,8 +678,10 @@ fn build_history(ops: &Sx, modes: &Sx, cfg: Config) -> Option<AnnotationStore> {
             continue;
         }
         if let Some(f) = res_file_rule(rmode, h, &id) {
-            let r: &mut TextResource = <AnnotationStore as StoreFor<TextResource>>::get_mut(&mut store, hd).ok()?;
-            r.set_filename(f.as_str());
+            let r: &mut TextResource = <AnnotationStore as StoreFor<TextResource>>::get_mut(store, hd).ok()?;
+            if r.filename().is_none() {
+                r.set_filename(f.as_str());
+            }
         }
     }
     for h in 0..store.datasets_len() {
@@ -678,11 +691,13 @@ fn build_history(ops: &Sx, modes: &Sx, cfg: Config) -> Option<AnnotationStore> {
             None => continue,
         };
         if let Some(f) = set_file_rule(smode, h, &id, empty) {
-            let s: &mut AnnotationDataSet = <AnnotationStore as StoreFor<AnnotationDataSet>>::get_mut(&mut store, hd).ok()?;
-            s.set_filename(f.as_str());
+            let s: &mut AnnotationDataSet = <AnnotationStore as StoreFor<AnnotationDataSet>>::get_mut(store, hd).ok()?;
+            if s.filename().is_none() {
+                s.set_filename(f.as_str());
+            }
         }
     }
-    Some(store)
+    Some(())
 }
 
 fn dir_snapshot(dir: &str, skip: &[&str]) -> Vec<(String, Vec<u8>)> {
@@ -1174,15 +1189,76 @@ pub fn generate(out: &mut Out, tier: &str, seed: u64) {
         let lit = gen_literal(&mut rng, i % 3 != 0, i % 2 == 0);
         emit(&ctx, out, l(vec![a(1), lit]));
     }
-    // 3. the final stores of random histories (all operations of the store model)
+    // 3. save, modify, save again: every kind of modification x every stand-off arrangement
+    for rmode in 0..3 {
+        for smode in 0..2 {
+            for m in 0..N_MODS {
+                for twice in 0..2 {
+                    emit(&ctx, out, save_modify_save(m, rmode, smode, twice == 1));
+                }
+            }
+        }
+    }
+    // 4. the final stores of random histories (all operations of the store model), half of them
+    //    with stand-off members and saves in between
     let n_hist = if thorough { 40000 } else { 1200 };
     for i in 0..n_hist {
         let cfg = storegen::GenCfg { max_ops: if i % 4 == 0 { 40 } else { 16 }, removals: if i % 3 == 0 { 0 } else { 4 }, invalid: 25, values: true };
-        let ops = storegen::gen_history(&mut rng, &cfg);
+        let mut ops = storegen::gen_history(&mut rng, &cfg);
         let modes = if i % 2 == 0 { l(vec![a(0), a(0)]) } else { l(vec![a(rng.below(4) as i64), a(rng.below(3) as i64)]) };
+        if i % 2 == 1 {
+            for _ in 0..(1 + rng.below(3)) {
+                let pos = rng.below(ops.len() + 1);
+                ops.insert(pos, l(vec![a(9)]));
+                out.count("save_in_between");
+            }
+        }
         emit(&ctx, out, l(vec![a(0), l(ops), modes]));
     }
     let _ = std::fs::remove_dir_all(&ctx.dir);
+}
+
+const N_MODS: usize = 14;
+/// a store with a dataset and a resource (stand-off or not), saved, modified in one way, (saved and
+/// modified once more,) and saved again by the final write
+fn save_modify_save(m: usize, rmode: i64, smode: i64, twice: bool) -> Sx {
+    let id = |t: i64| l(vec![a(0), a(t)]);
+    let h = |x: i64| l(vec![a(1), a(x)]);
+    let cb = |n: i64| l(vec![a(0), a(n)]);
+    let int = |z: i64| l(vec![a(2), a(z)]);
+    let txt = |b: i64, e: i64| l(vec![a(0), id(0), cb(b), cb(e)]);
+    let data = |idt: i64, key: i64, v: Sx| l(vec![id(0), if idt < 0 { a(-1) } else { id(idt) }, id(key), v]);
+    let mut ops = vec![
+        l(vec![a(0), a(0), a(8)]),                                               // resource r0, 8 characters
+        l(vec![a(0), a(1), a(5)]),                                               // resource r1
+        l(vec![a(3), a(0), txt(1, 4), l(vec![data(-1, 0, int(1)), data(3, 1, int(2))])]), // a0 with data (s0: k0=1, d3: k1=2)
+        l(vec![a(3), a(-1), txt(2, 6), l(vec![data(-1, 0, int(5))])]),          // an annotation without id
+        l(vec![a(9)]),
+    ];
+    let modification = |m: usize| -> Sx {
+        match m {
+            0 => l(vec![a(3), a(2), txt(0, 3), l(vec![data(-1, 0, int(7))])]),          // new data (no id) for an existing key, through annotate
+            1 => l(vec![a(3), a(3), txt(4, 8), l(vec![data(5, 1, int(8))])]),           // new data with id for an existing key
+            2 => l(vec![a(2), data(-1, 0, l(vec![a(4), a(120)]))]),                    // insert_data, existing key
+            3 => l(vec![a(2), data(-1, 2, int(9))]),                                    // insert_data, new key
+            4 => l(vec![a(3), a(4), txt(0, 8), l(vec![])]),                             // an annotation without data on the (stand-off) resource
+            5 => l(vec![a(5), id(0), h(0), a(1)]),                                      // remove_data strict
+            6 => l(vec![a(5), id(0), id(3), a(0)]),                                     // remove_data not strict
+            7 => l(vec![a(6), id(0), id(1), a(1)]),                                     // remove_key
+            8 => l(vec![a(4), h(1)]),                                                   // remove_annotation
+            9 => l(vec![a(3), a(5), l(vec![a(3), id(1)]), l(vec![l(vec![id(1), a(-1), id(0), int(1)])])]), // a new dataset s1 through annotate
+            10 => l(vec![a(0), a(2), a(4)]),                                            // a new resource
+            11 => l(vec![a(7), id(1)]),                                                 // remove_resource (no annotations on it)
+            12 => l(vec![a(8), id(0)]),                                                 // remove_dataset
+            _ => l(vec![a(3), a(6), l(vec![a(6), id(0), h(0)]), l(vec![data(-1, 1, int(2))])]), // existing data (same key and value) + a data selector
+        }
+    };
+    ops.push(modification(m));
+    if twice {
+        ops.push(l(vec![a(9)]));
+        ops.push(modification((m + 3) % N_MODS));
+    }
+    l(vec![a(0), l(ops), l(vec![a(rmode), a(smode)])])
 }
 
 /// one member of the exhaustive family
